@@ -1334,6 +1334,7 @@ def normalise(idx):
                 n.body = normalize_pre.while_to_for(n.body)
                 n.body = normalize_pre.unroll_const_loops(idx, fi.module, fi, n.body)
                 n.body = normalize_pre.or_assignments(n.body)
+                n.body = normalize_pre.loop_fission(n.body)
                 n.body = normalize_pre.append_loops(n.body)
                 n.body = normalize_pre.iter_next(n.body)
                 n.body = fold_block(n.body)
